@@ -192,7 +192,9 @@ func CheckErrPropagated(fn *ssa.Function, call ssa.CallInstruction) (problems []
 							state = "nonnil"
 						}
 					} else if bo, ok := cond.(*ssa.BinOp); ok && (sameCallResult(bo.X) || sameCallResult(bo.Y)) {
-						lastOnSameCall = true
+						// a test on another result of the same call excuses a replacement error only when the callee cannot
+						// return a failing error together with the tested value (so the replacement never masks one)
+						lastOnSameCall = sameCallTestExcludesError(cv, bo, taken)
 					}
 				}
 			}
@@ -226,4 +228,52 @@ func ImplementsMethodOf(fn *ssa.Function, iface *types.Interface) bool {
 func isOpaqueFailure(v ssa.Value) bool {
 	c, ok := v.(*ssa.Call)
 	return ok && (IsCallTo(c, "fmt", "Errorf") || IsCallTo(c, "errors", "New"))
+}
+
+// sameCallTestExcludesError: bo compares result i of call cv with a constant K, and the branch outcome `taken` is the one
+// on which result i == K (for ==) / != K (for !=). It returns true when the callee is a repository function with a body in
+// which no return that may carry a non-nil error has result i equal to K — so on that branch the call's error is nil and
+// replacing it hides nothing. Anything it cannot decide is false.
+func sameCallTestExcludesError(cv *ssa.Call, bo *ssa.BinOp, taken bool) bool {
+	if cv == nil || (bo.Op != token.EQL && bo.Op != token.NEQ) {
+		return false
+	}
+	callee := cv.Call.StaticCallee()
+	if callee == nil || len(callee.Blocks) == 0 {
+		return false
+	}
+	var ex *ssa.Extract
+	var kv ssa.Value
+	if e, ok := Unconv(bo.X).(*ssa.Extract); ok && e.Tuple == ssa.Value(cv) {
+		ex, kv = e, bo.Y
+	} else if e, ok := Unconv(bo.Y).(*ssa.Extract); ok && e.Tuple == ssa.Value(cv) {
+		ex, kv = e, bo.X
+	}
+	if ex == nil {
+		return false
+	}
+	k, isK := ConstInt(kv)
+	if !isK {
+		return false
+	}
+	// the branch on which result == K
+	eqBranch := (bo.Op == token.EQL) == taken
+	if !eqBranch {
+		return false
+	}
+	errIdx := ErrResultIndex(callee.Signature)
+	if errIdx < 0 {
+		return false
+	}
+	for _, ret := range Returns(callee) {
+		rr := ResolvedResults(ret)
+		if IsNilConst(rr[errIdx]) {
+			continue
+		}
+		rk, isRK := ConstInt(rr[ex.Index])
+		if !isRK || rk == k {
+			return false
+		}
+	}
+	return true
 }
